@@ -72,7 +72,9 @@ def run(ctx):
             n_calls += 1
             d = deny_class(cfg.fn_target(f)) or deny_class(f["path"])
             if d:
-                from rules.common import from_macro
+                from rules.common import from_macro, deny_exempt
+                if deny_exempt(f, t):
+                    continue
                 if from_macro(blk["sp"], {"debug_assert", "debug_assert_eq", "debug_assert_ne", "assert", "assert_eq", "unreachable", "panic"}):
                     continue  # enumerated as a PANIC obligation by the engine
                 fl, ln = loc_of(blk)
